@@ -283,6 +283,11 @@ UnpStr == {[f |-> <<"s", "1">>, data |-> <<3, 97, 98>>], [f |-> <<"s", "1">>, da
            [f |-> <<"z">>, data |-> <<97, 98>>], [f |-> <<"z">>, data |-> <<97, 0, 98>>], [f |-> <<"z">>, data |-> <<>>],
            [f |-> <<"<", "s", "1", "6">>, data |-> <<1>> \o Rep(0, 14) \o <<1, 97>>],
            [f |-> <<"<", "s", "1", "6">>, data |-> <<1>> \o Rep(0, 15) \o <<97>>],
+           \* length prefixes far beyond the data (nothing of that size may be allocated or read)
+           [f |-> <<"<", "s", "8">>, data |-> <<0, 0, 0, 0, 0, 0, 0, 64, 97>>], [f |-> <<"<", "s", "8">>, data |-> Rep(255, 8) \o <<97>>],
+           [f |-> <<"<", "s", "8">>, data |-> Rep(255, 7) \o <<127, 97>>], [f |-> <<">", "s", "8">>, data |-> <<64, 0, 0, 0, 0, 0, 0, 0, 97>>],
+           [f |-> <<"<", "s", "1", "6">>, data |-> <<0, 0, 0, 0, 0, 0, 0, 64>> \o Rep(0, 8) \o <<97>>],
+           [f |-> <<"<", "s">>, data |-> <<0, 0, 0, 0, 0, 0, 0, 64, 97>>], [f |-> <<"<", "s", "4">>, data |-> <<0, 0, 16, 0, 97>>],
            [f |-> <<"<", "s", "2">>, data |-> <<0, 1, 97>>], [f |-> <<">", "s", "2">>, data |-> <<0, 1, 97>>],
            [f |-> <<"c", "3">>, data |-> <<97, 98>>], [f |-> <<"c", "0">>, data |-> <<>>], [f |-> <<"c", "2">>, data |-> <<0, 97, 98>>],
            [f |-> <<"b">>, data |-> <<>>], [f |-> <<"x">>, data |-> <<>>], [f |-> <<"<", "i", "3">>, data |-> <<255, 255>>],
